@@ -39,7 +39,7 @@ fn root_fits(v: &Val) -> bool {
 	fits(DEFS, UTF8_VARIANT, None, &Vec::new(), &Ty::Ref(CLASS_FILE_ID), v)
 }
 
-/// the value lies outside the regions of the known JVMS defects (long/double pool entries, NestMembers, MethodParameters)
+/// the value lies outside the region of the open JVMS defect (long/double pool entries)
 fn root_avoids(v: &Val) -> bool {
 	avoids(DEFS, &|id, var| known_bad(CP_INFO_ID, id, var), &Ty::Ref(CLASS_FILE_ID), v)
 }
@@ -51,7 +51,7 @@ fn jvms_oracle(full: bool, v: &Val, c: &ClassFile) -> Ans {
 	if fvh::jvmsframe::class_file(false, &b) { Ans::pass() } else { Ans::fail("not-framed") }
 }
 
-/// byte round trip on the domain of well-framed class files (`known`: outside the known defect regions)
+/// byte round trip on the domain of well-framed class files (`known`: without long/double pool entries, the open defect)
 fn rt_bytes_oracle(known: bool, b: &[u8]) -> Ans {
 	if !fvh::jvmsframe::class_file(known, b) { return Ans::out_of_domain(); }
 	match read_class(b) {
@@ -161,7 +161,7 @@ struct G<'a> {
 	unfit_pm: usize,
 	/// one-shot boundary length for the next counted vector with this count width and a small element type
 	big: Option<(u8, usize)>,
-	/// keep out of the regions of the known JVMS defects (long/double pool entries, NestMembers, MethodParameters)
+	/// keep out of the region of the open JVMS defect (long/double pool entries)
 	avoid_known: bool,
 	hits: std::collections::BTreeMap<String, u64>,
 }
@@ -401,14 +401,9 @@ fn gen(r: &mut Rng, tier: Tier, out: &mut Out) {
 		let c = fvh::rawgolden::golden();
 		emit_value_ops(out, &to_val_ClassFile(&c), true);
 		if let Some(b) = write_class(&c) { out.op("raw-read", &[hex(&b)]); out.op("raw-consts-agree", &[hex(&b)]); }
-		// the same class without the two attributes of the known defect regions: every other attribute kind, frame kind,
-		// element value kind and pool entry kind at once in front of the JVMS frame walker
-		let mut c2 = c.clone();
-		c2.attributes.retain(|a| !matches!(a, raw_class_file::AttributeInfo::NestMembers { .. }));
-		for m in &mut c2.methods { m.attributes.retain(|a| !matches!(a, raw_class_file::AttributeInfo::MethodParameters { .. })); }
-		out.stats.hit("golden:named-fields-class-outside-known-regions");
-		emit_value_ops(out, &to_val_ClassFile(&c2), true);
-		if let Some(b) = write_class(&c2) { out.op("oracle-rt-bytes", &[hex(&b)]); mutate(r, &b, out); }
+		// the class has no long/double entry: every attribute kind, frame kind, element value kind and every other pool
+		// entry kind at once in front of the JVMS frame walker (oracle-jvms above), and as bytes through the round trip
+		if let Some(b) = write_class(&c) { out.op("oracle-rt-bytes", &[hex(&b)]); mutate(r, &b, out); }
 	}
 
 	// hand-made edge cases: empty input, header only, pool count 0 (u16 underflow in `constant_pool_count - 1`)
@@ -425,11 +420,12 @@ fn gen(r: &mut Rng, tier: Tier, out: &mut Out) {
 		if p.extension().and_then(|e| e.to_str()) != Some("class") { continue; }
 		let Ok(b) = std::fs::read(&p) else { continue };
 		let name = p.file_name().and_then(|n| n.to_str()).unwrap_or("");
-		// classes whose name starts with `kf_` were written to lie in the region of a known defect (long/double pool
-		// entries, NestMembers, MethodParameters).  No special treatment: the domain predicates of the oracles decide.
+		// classes whose name starts with `kf_` were written to lie in the region of a defect (long/double pool entries:
+		// still open; NestMembers, MethodParameters: repaired, so kf_Outer / kf_Params / kf_Rec are ordinary corpus files
+		// now).  No special treatment: the domain predicates of the oracles decide.
 		let in_domain = fvh::jvmsframe::class_file(true, &b);
 		out.stats.hit(if in_domain { "corpus:javac-in-domain" } else { "corpus:javac-known-defect-region" });
-		if in_domain && name.starts_with("kf_") { out.stats.hit("corpus:kf-file-outside-known-regions"); }
+		if in_domain && name.starts_with("kf_") { out.stats.hit("corpus:kf-file-in-domain"); }
 		out.op("raw-read", &[hex(&b)]);
 		out.op("jvms-frame", &[Sexp::bool(false), hex(&b)]);
 		out.op("jvms-frame", &[Sexp::bool(true), hex(&b)]);
